@@ -67,7 +67,8 @@ type Func struct {
 	Export   bool
 	Callback bool
 	Info     bool
-	FlatN    int // element count for a positional flatten result
+	FlatN    int    // element count for a positional flatten result
+	Decl     string `json:",omitempty"` // name of a declared pool function to use instead of reflect.MakeFunc
 }
 
 // Key is the model's notion of dig's key.
